@@ -31,8 +31,18 @@ func genNatsOps(rng *rand.Rand, withExpiry bool) []natsOp {
 	for i := 0; i < n; i++ {
 		switch rng.Intn(12) {
 		case 0, 1, 2:
-			ops = append(ops, natsOp{Kind: "create", Val: fmt.Sprintf("v%d-%d", i, rng.Intn(1000))})
+			v := fmt.Sprintf("v%d-%d", i, rng.Intn(1000))
+			ops = append(ops, natsOp{Kind: "create", Val: v})
+			if rng.Intn(3) == 0 {
+				// the very same bytes again (a retried Create): refused like any other while the key is live
+				ops = append(ops, natsOp{Kind: "create", Val: v})
+			}
 		case 3, 4, 5, 6:
+			if rng.Intn(6) == 0 && len(ops) > 0 && (ops[len(ops)-1].Kind == "create" || ops[len(ops)-1].Kind == "update") {
+				// an Update (latest revision) or a Create that writes the bytes that are already there
+				ops = append(ops, natsOp{Kind: []string{"create", "update"}[rng.Intn(2)], Val: ops[len(ops)-1].Val, Rev: "latest"})
+				continue
+			}
 			ops = append(ops, natsOp{Kind: "update", Val: fmt.Sprintf("u%d-%d", i, rng.Intn(1000)), Rev: []string{"latest", "latest", "latest", "stale", "bogus"}[rng.Intn(5)]})
 		case 7, 8:
 			ops = append(ops, natsOp{Kind: "get"})
